@@ -116,6 +116,120 @@ theorem C01_slice_runs_preserve (h : Heap) (ops : List (Slice × Nat × Option N
     | some x => exact preserves_trans hp (C01_slice_upsert_preserves hh op.1 op.2.1 x)
     | none => exact preserves_trans hp (C01_slice_delete_preserves hh op.1 op.2.1)
 
+/-! ### functional correctness of the insert path -/
+
+private theorem sf_get_make_new (h : Heap) (l c : Nat) : (h.make l c).1.get h.arrays.length = List.replicate c 0 := by
+  simp [Heap.make, Heap.get]
+
+private theorem sf_get_make_old (h : Heap) (l c a : Nat) (ha : a < h.arrays.length) : (h.make l c).1.get a = h.get a := by
+  simp [Heap.make, Heap.get, List.getElem?_append_left ha]
+
+private theorem sf_make_len (h : Heap) (l c : Nat) : (h.make l c).1.arrays.length = h.arrays.length + 1 := by simp [Heap.make]
+
+private theorem sf_get_writeArr_same (h : Heap) (a i : Nat) (xs : List Nat) (ha : a < h.arrays.length) :
+    (h.writeArr a i xs).get a = setAt (h.get a) i xs := by
+  simp [Heap.writeArr, Heap.get, List.getElem?_mapIdx, List.getElem?_eq_getElem ha]
+
+private theorem sf_get_writeArr_other (h : Heap) (a a' i : Nat) (xs : List Nat) (hne : a' ≠ a) : (h.writeArr a i xs).get a' = h.get a' := by
+  unfold Heap.writeArr Heap.get
+  simp only [List.getElem?_mapIdx]
+  cases h.arrays[a']? with
+  | none => rfl
+  | some arr => simp [hne]
+
+private theorem sf_writeArr_len (h : Heap) (a i : Nat) (xs : List Nat) : (h.writeArr a i xs).arrays.length = h.arrays.length := by
+  simp [Heap.writeArr]
+
+/-- in-place append onto a slice with room -/
+private theorem sf_append_inplace (h : Heap) (s : Slice) (xs : List Nat) (hc : s.len + xs.length ≤ s.cap) :
+    h.append s xs = (h.writeArr s.arr (s.off + s.len) xs, { s with len := s.len + xs.length }) := by
+  simp [Heap.append, hc]
+
+private theorem sf_setAt_front (n : Nat) (xs : List Nat) (h : xs.length ≤ n) :
+    setAt (List.replicate n 0) 0 xs = xs ++ List.replicate (n - xs.length) 0 := by
+  simp [setAt]
+
+private theorem sf_setAt_mid (a r xs : List Nat) : setAt (a ++ r) a.length xs = a ++ xs ++ r.drop xs.length := by
+  simp [setAt, List.take_append, List.drop_append, Nat.add_sub_cancel_left]
+
+private theorem sf_read_sub_front (h : Heap) (t : Slice) (idx : Nat) (hi : idx ≤ t.len) :
+    h.read (t.sub 0 idx) = (h.read t).take idx := by
+  simp [Heap.read, Slice.sub, List.take_take, Nat.min_eq_left hi]
+
+private theorem sf_read_sub_back (h : Heap) (t : Slice) (idx : Nat) (hi : idx ≤ t.len) :
+    h.read (t.sub idx t.len) = (h.read t).drop idx := by
+  simp [Heap.read, Slice.sub, List.drop_take, List.drop_drop, Nat.add_comm]
+
+
+
+
+private theorem sf_read_len (h : Heap) (t : Slice) (hb : t.off + t.len ≤ (h.get t.arr).length) : (h.read t).length = t.len := by
+  simp [Heap.read]; omega
+
+private theorem sf_read_make_old (h : Heap) (l c : Nat) (s : Slice) (hs : s.arr < h.arrays.length) : (h.make l c).1.read s = h.read s := by
+  simp [Heap.read, sf_get_make_old h l c s.arr hs]
+
+private theorem sf_read_writeArr_other (h : Heap) (a i : Nat) (xs : List Nat) (s : Slice) (hne : s.arr ≠ a) : (h.writeArr a i xs).read s = h.read s := by
+  simp [Heap.read, sf_get_writeArr_other h a s.arr i xs hne]
+
+/-- **The insert path computes the intended tail**: the new slice reads the old tail with the
+    object inserted at its position (the shared array is left alone: `C01_slice_upsert_preserves`) -/
+theorem C01_slice_upsert_result (h : Heap) (t : Slice) (idx x : Nat)
+    (ha : t.arr < h.arrays.length) (hb : t.off + t.len ≤ (h.get t.arr).length) (hi : idx ≤ t.len) :
+    (upsertTail h t idx x).1.read (upsertTail h t idx x).2 = (h.read t).take idx ++ x :: (h.read t).drop idx := by
+  have hlen := sf_read_len h t hb
+  have hne : t.arr ≠ h.arrays.length := by omega
+  -- names
+  let n0 := h.arrays.length
+  let h1 := (h.make 0 (t.len + 1)).1
+  let nt0 : Slice := { arr := n0, off := 0, len := 0, cap := t.len + 1 }
+  have hmk : h.make 0 (t.len + 1) = (h1, nt0) := rfl
+  let A := (h.read t).take idx
+  let B := (h.read t).drop idx
+  have hA : h1.read (t.sub 0 idx) = A := by
+    rw [sf_read_make_old h _ _ _ (by simpa [Slice.sub] using ha), sf_read_sub_front h t idx hi]
+  have hAl : A.length = idx := by simp [A, hlen]; omega
+  have hBl : B.length = t.len - idx := by simp [B, hlen]
+  -- step 1
+  have c1 : nt0.len + A.length ≤ nt0.cap := by simp [nt0, hAl]; omega
+  let h2 := h1.writeArr n0 0 A
+  let nt1 : Slice := { nt0 with len := A.length }
+  have s1 : h1.append nt0 A = (h2, nt1) := by rw [sf_append_inplace h1 nt0 A c1]; simp [h2, nt1, nt0]
+  have g2 : h2.get n0 = A ++ List.replicate (t.len + 1 - idx) 0 := by
+    rw [sf_get_writeArr_same h1 n0 0 A (by simp [h1, sf_make_len, n0]), sf_get_make_new, sf_setAt_front _ _ (by omega), hAl]
+  -- step 2
+  have c2 : nt1.len + [x].length ≤ nt1.cap := by simp [nt1, nt0, hAl]; omega
+  let h3 := h2.writeArr n0 idx [x]
+  let nt2 : Slice := { nt1 with len := idx + 1 }
+  have s2 : h2.append nt1 [x] = (h3, nt2) := by
+    rw [sf_append_inplace h2 nt1 [x] c2]; simp [h3, nt2, nt1, nt0, hAl]
+  have g3 : h3.get n0 = A ++ [x] ++ List.replicate (t.len - idx) 0 := by
+    rw [sf_get_writeArr_same h2 n0 idx [x] (by simp [h2, sf_writeArr_len, h1, sf_make_len, n0]), g2]
+    have := sf_setAt_mid A (List.replicate (t.len + 1 - idx) 0) [x]
+    rw [hAl] at this; rw [this]
+    simp; omega
+  have hB : h3.read (t.sub idx t.len) = B := by
+    rw [sf_read_writeArr_other _ _ _ _ _ (by simpa [Slice.sub] using hne), sf_read_writeArr_other _ _ _ _ _ (by simpa [Slice.sub] using hne),
+        sf_read_make_old h _ _ _ (by simpa [Slice.sub] using ha), sf_read_sub_back h t idx hi]
+  -- step 3
+  have c3 : nt2.len + B.length ≤ nt2.cap := by simp [nt2, nt1, nt0, hBl]; omega
+  let h4 := h3.writeArr n0 (idx + 1) B
+  have s3 : h3.append nt2 B = (h4, { nt2 with len := idx + 1 + B.length }) := by
+    rw [sf_append_inplace h3 nt2 B c3]; simp [h4, nt2, nt1, nt0]
+  have g4 : h4.get n0 = A ++ [x] ++ B := by
+    rw [sf_get_writeArr_same h3 n0 (idx + 1) B (by simp [h3, h2, sf_writeArr_len, h1, sf_make_len, n0]), g3]
+    have := sf_setAt_mid (A ++ [x]) (List.replicate (t.len - idx) 0) B
+    simp only [List.length_append, hAl, List.length_singleton] at this
+    rw [this, hBl]; simp
+  -- assemble
+  have hu : upsertTail h t idx x = (h4, { nt2 with len := idx + 1 + B.length }) := by
+    unfold upsertTail
+    simp only [hmk, hA, s1, s2, hB, s3]
+  rw [hu]
+  simp only [Heap.read, nt2, nt1, nt0, g4, List.drop_zero]
+  rw [List.take_of_length_le (by simp [hAl, hBl]; omega)]
+  simp [A, B, Heap.read]
+
 /-! ### the shortcuts are NOT safe (why each regenerated fact is needed) -/
 
 /-- a heap with one array `[10,20,30,40,_,_,_,_]` and the tail `[10,20,30,40]` over it -/
